@@ -22,6 +22,8 @@ BASE = {
     "a.c": "int a;\n", "b.py": "b = 1\n", "src/s.cpp": "int s;\n", "src/deep/d.html": "<p>d</p>\n", "data.csv": "a,b\n",
     "pic.png": BINARY, "notes.foo": "notes\n", "ign.c": "int ign;\n", "build/gen.py": "g = 1\n", "ro.c": "int ro;\n",
     "LICENSES/ISC.txt": "ISC text\n", "empty.py": "",
+    # entries whose names merely begin like the directory `src` (must never be selected by `--recursive src`)
+    "src-vendored/v.c": "int v;\n", "src2.py": "s2 = 1\n",
     "hdr.py": "# SPDX-FileCopyrightText: 2019 Own\n#\n# SPDX-License-Identifier: ISC\n\nh = 1\n",
 }
 SENTINEL = {"out.c": "int out;\n", "out.py": "o = 1\n", "keep.txt": "keep\n"}
@@ -57,6 +59,12 @@ def tree_of(case):
     if t.get("sl"):
         files["sl.py"] = "s = 1\n"
         links["sl.py.license"] = "../sentinel/keep.txt"
+    if t.get("lr") == "file":
+        files["LICENSES/LicenseRef-custom.txt"] = "custom licence text\n"      # an existing destination of `download LicenseRef-custom`
+    elif t.get("lr") == "link":
+        links["LICENSES/LicenseRef-custom.txt"] = "../../sentinel/keep.txt"
+    elif t.get("lr") == "dangling":
+        links["LICENSES/LicenseRef-custom.txt"] = "../../sentinel/new4.txt"
     if t.get("dsl"):
         # dangling links at .license positions, pointing outside the project: a header that has to go to FILE.license
         # (binary / uncommentable / unrecognised file, --force-dot-license) must not be written through them
@@ -144,6 +152,8 @@ def argv_of(case, cmd):
             a.append("--all")
         if cmd.get("out"):
             a += ["-o", cmd["out"]]
+        if cmd.get("source"):
+            a += ["--source", cmd["source"]]
         return a + list(cmd.get("ids", []))
     if k == "annotate":
         a = ["annotate", "--copyright", "Jane " + " ".join(case.get("terms", [])) + " Doe", "--license", "MIT"]
@@ -273,6 +283,8 @@ def gen_cmd(rng, case, modelled=True):
             c.update(all=True)
         elif q < 0.4 and not modelled:
             c.update(ids=["LicenseRef-custom"])
+            if rng.random() < 0.7:
+                c["source"] = rng.choice(["a.c", "../sentinel/out.py", "src"])
         else:
             c.update(ids=rng.sample(["MIT", "ISC", "Nope-1.0", "GPL-3.0-or-later", "0BSD"] + (["MIT+"] if not modelled else []),
                                     rng.randint(1, 2)))
@@ -325,7 +337,8 @@ class CommandStream(Stream):
     def gen_tree(self, rng):
         git = rng.random() < 0.6
         return {"git": git, "tracked": git and rng.random() < 0.6, "lic": rng.choice(["dep5", "dep5", "toml", "none"]),
-                "sibs": ["b.py"] if rng.random() < 0.3 else [], "sl": rng.random() < 0.3, "dsl": rng.random() < 0.25}
+                "sibs": ["b.py"] if rng.random() < 0.3 else [], "sl": rng.random() < 0.3, "dsl": rng.random() < 0.25,
+                "lr": rng.choice([None, None, None, "file", "link", "dangling"]) if not self.modelled else None}
 
     def cases(self, tier, rng):
         thorough = tier == "thorough"
@@ -425,7 +438,7 @@ class CommandStream(Stream):
         snap0 = {n: ("file", "", 0, len(c)) for n, c in files.items()}
         below = ["\n".join([d] + sorted(covered_in(snap0, ignored, d))) for d in sorted(dirs) if d]
         world = ["0", "LICENSES"] + FETCHABLE
-        watch = sorted(cand | {"../sentinel/" + n for n in SENTINEL} | {"../sentinel/new%d.txt" % i for i in (1, 2, 3)} | {"LICENSES/%s.txt" % i for i in FETCHABLE + ["Nope-1.0"]}
+        watch = sorted(cand | {"../sentinel/" + n for n in SENTINEL} | {"../sentinel/new%d.txt" % i for i in (1, 2, 3, 4)} | {"LICENSES/%s.txt" % i for i in FETCHABLE + ["Nope-1.0"]}
                        | {"REUSE.toml", ".reuse/dep5", "out.spdx", "lic", "lic/COPYING", "LICENSES"})
         cmds = []
         for cmd in case["cmds"]:
@@ -482,7 +495,8 @@ class CommandStream(Stream):
 class UnmodelledStream(CommandStream):
     name = "commands-oracle-only"
     modelled = False
-    rule = ("same generator, additionally `download --all`, `download LicenseRef-…`, identifiers with '+'; judged by the property's "
+    rule = ("same generator, additionally `download --all`, `download LicenseRef-…` with and without --source (file, file outside, "
+            "directory) onto an absent / existing / symlinked / dangling destination, identifiers with '+'; judged by the property's "
             "clauses only (these variants are verified in depth under C19)")
 
     def cases(self, tier, rng):
@@ -492,6 +506,14 @@ class UnmodelledStream(CommandStream):
             if not any(c["cmd"] == "download" for c in case["cmds"]):
                 case["cmds"].append({"cmd": "download", "all": True} if rng.random() < 0.5 else {"cmd": "download", "ids": ["LicenseRef-custom", "MIT+"]})
             yield case
+        # `download LicenseRef-… --source …` onto a destination that already exists (regular file, link to a file outside, dangling link)
+        for lr in ("file", "link", "dangling"):
+            for source in ("a.c", "../sentinel/out.py", "src"):
+                for out in (None, "LICENSES/LicenseRef-custom.txt"):
+                    cmd = {"cmd": "download", "ids": ["LicenseRef-custom"], "source": source}
+                    if out:
+                        cmd["out"] = out
+                    yield {"tree": {"git": False, "lic": "none", "sibs": [], "sl": False, "lr": lr}, "terms": [], "cmds": [cmd]}
 
 
 # ---------------------------------------------------------------------------
